@@ -34,6 +34,24 @@ func canMakeAccumulatorForKey(keyType reflect.Type) bool {
 	}
 }
 
+// accumulatorContext holds the context that accumulators pass to the
+// user's fold function. It is set by the fold reader so that the
+// function runs with the evaluating task's context (which carries,
+// e.g., the task's metrics scope); it defaults to the background
+// context.
+type accumulatorContext struct {
+	ctx context.Context
+}
+
+func (a *accumulatorContext) setContext(ctx context.Context) { a.ctx = ctx }
+
+func (a *accumulatorContext) context() context.Context {
+	if a.ctx == nil {
+		return context.Background()
+	}
+	return a.ctx
+}
+
 func makeAccumulator(keyType, accType reflect.Type, fn slicefunc.Func) Accumulator {
 	switch keyType.Kind() {
 	case reflect.String:
@@ -61,13 +79,14 @@ func makeAccumulator(keyType, accType reflect.Type, fn slicefunc.Func) Accumulat
 
 // StringAccumulator accumulates values by string keys.
 type stringAccumulator struct {
+	accumulatorContext
 	accType reflect.Type
 	fn      slicefunc.Func
 	state   map[string]reflect.Value
 }
 
 func (s *stringAccumulator) Accumulate(in frame.Frame, n int) {
-	ctx := context.Background()
+	ctx := s.context()
 	keys := in.Interface(0).([]string)
 	args := make([]reflect.Value, in.NumOut())
 	for i := 0; i < n; i++ {
@@ -103,13 +122,14 @@ func (s *stringAccumulator) Read(keys, values reflect.Value) (n int, err error) 
 
 // IntAccumulator accumulates values by integer keys.
 type intAccumulator struct {
+	accumulatorContext
 	accType reflect.Type
 	fn      slicefunc.Func
 	state   map[int]reflect.Value
 }
 
 func (s *intAccumulator) Accumulate(in frame.Frame, n int) {
-	ctx := context.Background()
+	ctx := s.context()
 	keys := in.Interface(0).([]int)
 	args := make([]reflect.Value, in.NumOut())
 	for i := 0; i < n; i++ {
@@ -145,13 +165,14 @@ func (s *intAccumulator) Read(keys, values reflect.Value) (n int, err error) {
 
 // Int64Accumulator accumulates values by integer keys.
 type int64Accumulator struct {
+	accumulatorContext
 	accType reflect.Type
 	fn      slicefunc.Func
 	state   map[int64]reflect.Value
 }
 
 func (s *int64Accumulator) Accumulate(in frame.Frame, n int) {
-	ctx := context.Background()
+	ctx := s.context()
 	keys := in.Interface(0).([]int64)
 	args := make([]reflect.Value, in.NumOut())
 	for i := 0; i < n; i++ {
